@@ -3,8 +3,8 @@
    OBSERVED by the harness (race detector, watchdog), not proved (see DESIGN.md §8 C09). *)
 From stdpp Require Import gmap.
 From Coq Require Import ZArith.
-From Synnax Require Import Common.Commute Cesium.Serial Cesium.SerialProofs
-  Cesium.Domain Cesium.DomainProofs Cesium.DomainCommute.
+From Synnax Require Import Common.Commute Cesium.Serial Cesium.SerialProofs.
+From Synnax Require Cesium.Domain Cesium.DomainProofs Cesium.DomainCommute.
 Local Open Scope Z_scope.
 
 (* Two operations that report success and are independent — they touch different channels,
@@ -38,11 +38,11 @@ Print Assumptions C09_interleaving_generic.
    succeed in both orders — i.e. on disjoint time regions — leave the identical index (same pointers,
    same order, same files and offsets), whichever commits first. *)
 Theorem C09_index_inserts_commute : forall ps p q a ab b ba,
-  idx_ok ps -> ptr_wf p -> ptr_wf q ->
-  insert ps p = inl a -> insert a q = inl ab ->
-  insert ps q = inl b -> insert b p = inl ba ->
+  DomainProofs.idx_ok ps -> DomainProofs.ptr_wf p -> DomainProofs.ptr_wf q ->
+  Domain.insert ps p = inl a -> Domain.insert a q = inl ab ->
+  Domain.insert ps q = inl b -> Domain.insert b p = inl ba ->
   ab = ba.
-Proof. exact insert_commute. Qed.
+Proof. exact DomainCommute.insert_commute. Qed.
 Print Assumptions C09_index_inserts_commute.
 
 (* Non-vacuity: two threads (a writer producing new domains on group 1; a thread deleting an
